@@ -69,8 +69,8 @@ public API.
     cmake -G Ninja -S src -B _b -DCMAKE_BUILD_TYPE=RelWithDebInfo -DCMAKE_CXX_FLAGS=-Wno-error   (once)
     cmake --build _b -j6                      (about 2-4 minutes the first time; other jobs share the machine)
     ctest --test-dir _b/test -j4 --timeout 900
-Baseline: 138 test cases pass; exactly one, "Common subexpression elimination" in test_i_mep, already fails on
-the unchanged tree — that is expected and must stay as it is (still the only failure).
+Baseline on the unchanged tree: all 30 ctest executables pass (139 doctest cases); results with your change must be
+identical, executable by executable.
 A demo can be compiled like: `g++ -std=c++17 -O1 -g -DNDEBUG -I src -isystem src/third_party demo.cc _b/kernel/libvita.a _b/third_party/tinyxml2/libtinyxml2.a -pthread -o demo`
 (add `-fsanitize=address,undefined` and rebuild the library objects yourself if the violation is undefined
 behaviour; say so in the README). In programs that run evolution set `vita::log::reporting_level = vita::log::lOFF;`
